@@ -1002,10 +1002,13 @@ class DFA:
         the state is assumed to be reentrant.
         """
 
+        actions = list(actions)
+        strict_actions = timing_strict_actions(actions)
+
         for finish in target_states:
             for incoming, trans in self.transitions_pointing_to(finish, include_states=True):
                 for action in actions:
-                    if action.is_timing_strict() and any(not x.error_handling for x in finish.transitions):
+                    if action in strict_actions and any(not x.error_handling for x in finish.transitions):
                         # Complain early
                         raise UnableToScheduleActionError([incoming], [action])
                     else:
@@ -1731,6 +1734,13 @@ class Action:
 
         return []
 
+    def reads(self) -> List["OutputStorage"]:
+        """
+        Return which outputs this action looks at (directly or through an embedded action)
+        """
+
+        return []
+
     def embeddable(self):
         """
         Returns false if this action should not be wrapped in another action, like ConditionalAction
@@ -1757,6 +1767,26 @@ class Action:
         """
 
         return False
+
+def timing_strict_actions(actions: Iterable[Action]) -> List[Action]:
+    """
+    Which of these actions -- executed in this order, as one group -- cannot be executed a second time?
+
+    Those that say so themselves, and those which read an output that they or a later action of the group modify: when the
+    group is repeated they would see the modified value instead of the one they saw the first time.
+    """
+
+    actions = list(actions)
+    strict = []
+    for i, action in enumerate(actions):
+        if action.is_timing_strict():
+            strict.append(action)
+            continue
+        modified_later = [out for later in actions[i:] for sub in later.all_subactions() for out in sub.modifies()]
+        if any(out in modified_later for out in action.reads()):
+            ProgramData.imbue(action, DTAG.STRICT_TIMING_REASON, "a following action changes a value this one depends on")
+            strict.append(action)
+    return strict
 
 class ConditionalAction(Action, HasDefaultDebugInfo):
     """
@@ -1799,6 +1829,15 @@ class ConditionalAction(Action, HasDefaultDebugInfo):
 
     def may_return_early(self):
         return any(x.may_return_early() for x in self.embeds())
+
+    def reads(self):
+        result = []
+        for cond in self.conditions:
+            if isinstance(cond, IntegerCondition):
+                result.extend(cond.expr.accesses())
+        for act in self.embeds():
+            result.extend(act.reads())
+        return result
 
     def get_target_override_targets(self):
         tgts = set()
@@ -1965,6 +2004,9 @@ class SetTo(Action, HasDefaultDebugInfo):
 
     def is_timing_strict(self):
         return any(self.into_storage in x.accesses() for x in self.value_expr.all_children())
+
+    def reads(self):
+        return self.value_expr.accesses()
 
     def debug_lookup(self, tag: DTAG):
         if tag == DTAG.NAME:
@@ -3417,9 +3459,10 @@ class RegexMatch(Match):
         self.dfa_2 = self.dfa_1.minimize_dfa(self.alphabet, new_dfa)
         
         # Check if it's possible to schedule the finish actions. TODO: instead of throwing an error, attempt to move them to the next thing's start
-        if any(x.is_timing_strict() for x in self.finish_actions) and any(x.transitions for x in self.dfa_2.finishing_states):
+        strict_actions = timing_strict_actions(self.finish_actions)
+        if strict_actions and any(x.transitions for x in self.dfa_2.finishing_states):
             # Complain early
-            raise UnableToScheduleActionError((x for x in self.dfa_2.finishing_states if x.transitions), (x for x in self.finish_actions if x.is_timing_strict()))
+            raise UnableToScheduleActionError((x for x in self.dfa_2.finishing_states if x.transitions), strict_actions)
 
         # Create a normal SM
         out_dfa = DFA()
@@ -3850,8 +3893,9 @@ class CaseNode(Node):
                 if true_backref is not None:
                     # Handle empty matches
                     all_transitions_empty = set().union(*(decider_dfa.transitions_pointing_to(x) for x in corresponding_finish_states[i]))
-                    if len(all_transitions_empty) != 1 and any(x.is_timing_strict() for x in self.case_match_actions[true_backref]):
-                        raise UnableToScheduleActionError([i], [x for x in self.case_match_actions[true_backref] if x.is_timing_strict()])
+                    strict_actions = timing_strict_actions(self.case_match_actions[true_backref])
+                    if len(all_transitions_empty) != 1 and strict_actions:
+                        raise UnableToScheduleActionError([i], strict_actions)
                     # Add actions
                     for j in all_transitions_empty:
                         j.attach(*self.case_match_actions[true_backref], prepend=True)
